@@ -2,6 +2,7 @@ package main
 
 import (
 	"errors"
+	"fmt"
 
 	cbor "github.com/fxamacker/cbor/v2"
 	"github.com/veraison/eat"
@@ -68,7 +69,7 @@ func codecHit(kind string) bool {
 	return false
 }
 
-var codecFaults = []string{"codec.marshal_err", "codec.unmarshal_err", "codec.validate_err"}
+var codecFaults = []string{"codec.marshal_err", "codec.unmarshal_err", "codec.validate_err", "codec.swmarshal_err"}
 
 // ---- extension over profile 2
 
@@ -223,6 +224,9 @@ func registerSimProfiles() {
 		panic(err)
 	}
 	if err := psatoken.RegisterProfile(XP1Profile{xp1Name}); err != nil {
+		panic(err)
+	}
+	if err := psatoken.RegisterProfile(XWProfile{}); err != nil {
 		panic(err)
 	}
 	simProfilesRegistered = true
@@ -569,4 +573,107 @@ func localProfileB(name string) psatoken.IProfile {
 		return &claims{P2Claims: psatoken.P2Claims{Profile: eatProfileOf(name),
 			SwComponents: &psatoken.SwComponents[*psatoken.SwComponent]{}, CanonicalProfile: name}, Profile: &n}
 	}}
+}
+
+// ---- wide extension over profile 2: up to 20 optional extra claims, so that
+// the number of top-level claims crosses the CBOR header boundary at 23/24
+
+const xwName = "http://sim.example/psa/xw"
+
+type XWClaims struct {
+	psatoken.P2Claims
+	W00 *int64 `cbor:"-75300,keyasint,omitempty" json:"w-00,omitempty"`
+	W01 *int64 `cbor:"-75301,keyasint,omitempty" json:"w-01,omitempty"`
+	W02 *int64 `cbor:"-75302,keyasint,omitempty" json:"w-02,omitempty"`
+	W03 *int64 `cbor:"-75303,keyasint,omitempty" json:"w-03,omitempty"`
+	W04 *int64 `cbor:"-75304,keyasint,omitempty" json:"w-04,omitempty"`
+	W05 *int64 `cbor:"-75305,keyasint,omitempty" json:"w-05,omitempty"`
+	W06 *int64 `cbor:"-75306,keyasint,omitempty" json:"w-06,omitempty"`
+	W07 *int64 `cbor:"-75307,keyasint,omitempty" json:"w-07,omitempty"`
+	W08 *int64 `cbor:"-75308,keyasint,omitempty" json:"w-08,omitempty"`
+	W09 *int64 `cbor:"-75309,keyasint,omitempty" json:"w-09,omitempty"`
+	W10 *int64 `cbor:"-75310,keyasint,omitempty" json:"w-10,omitempty"`
+	W11 *int64 `cbor:"-75311,keyasint,omitempty" json:"w-11,omitempty"`
+	W12 *int64 `cbor:"-75312,keyasint,omitempty" json:"w-12,omitempty"`
+	W13 *int64 `cbor:"-75313,keyasint,omitempty" json:"w-13,omitempty"`
+	W14 *int64 `cbor:"-75314,keyasint,omitempty" json:"w-14,omitempty"`
+	W15 *int64 `cbor:"-75315,keyasint,omitempty" json:"w-15,omitempty"`
+	W16 *int64 `cbor:"-75316,keyasint,omitempty" json:"w-16,omitempty"`
+	W17 *int64 `cbor:"-75317,keyasint,omitempty" json:"w-17,omitempty"`
+	W18 *int64 `cbor:"-75318,keyasint,omitempty" json:"w-18,omitempty"`
+	W19 *int64 `cbor:"-75319,keyasint,omitempty" json:"w-19,omitempty"`
+}
+
+func (o *XWClaims) wide() []**int64 {
+	return []**int64{&o.W00, &o.W01, &o.W02, &o.W03, &o.W04, &o.W05, &o.W06, &o.W07, &o.W08, &o.W09, &o.W10, &o.W11, &o.W12, &o.W13, &o.W14, &o.W15, &o.W16, &o.W17, &o.W18, &o.W19}
+}
+
+// GetWide renders the extra claims that are present.
+func (o *XWClaims) GetWide() string {
+	s := ""
+	for i, p := range o.wide() {
+		if *p != nil {
+			s += fmt.Sprintf("%d=%d,", i, **p)
+		}
+	}
+	return s
+}
+
+func (o *XWClaims) Validate() error {
+	if codecHit("codec.validate_err") {
+		return errInjectedCodec
+	}
+	return psatoken.ValidateClaims(o)
+}
+
+func (o XWClaims) MarshalCBOR() ([]byte, error) { //nolint:gocritic
+	if codecHit("codec.marshal_err") {
+		return nil, errInjectedCodec
+	}
+	return encoding.SerializeStructToCBOR(xem, &o)
+}
+
+func (o *XWClaims) UnmarshalCBOR(data []byte) error {
+	if codecHit("codec.unmarshal_err") {
+		return errInjectedCodec
+	}
+	return encoding.PopulateStructFromCBOR(xdm, data, o)
+}
+
+func (o XWClaims) MarshalJSON() ([]byte, error) { //nolint:gocritic
+	if codecHit("codec.marshal_err") {
+		return nil, errInjectedCodec
+	}
+	return encoding.SerializeStructToJSON(&o)
+}
+
+func (o *XWClaims) UnmarshalJSON(data []byte) error {
+	if codecHit("codec.unmarshal_err") {
+		return errInjectedCodec
+	}
+	return encoding.PopulateStructFromJSON(data, o)
+}
+
+type XWProfile struct{}
+
+func (XWProfile) GetName() string { return xwName }
+func (XWProfile) GetClaims() psatoken.IClaims {
+	return &XWClaims{P2Claims: psatoken.P2Claims{
+		Profile:          eatProfileOf(xwName),
+		SwComponents:     &psatoken.SwComponents[*psatoken.SwComponent]{},
+		CanonicalProfile: xwName,
+	}}
+}
+
+// ---- a user software-component type whose encoder can be made to fail
+
+type XSwComponent struct {
+	psatoken.SwComponent
+}
+
+func (c XSwComponent) MarshalCBOR() ([]byte, error) { //nolint:gocritic
+	if codecHit("codec.swmarshal_err") {
+		return nil, errInjectedCodec
+	}
+	return xem.Marshal(c.SwComponent)
 }
